@@ -68,7 +68,7 @@ type HandlerCall struct {
 	Name    string
 	Arg     *string
 	Tail    []string
-	Cluster bool // the name argument is not asserted for clusters, except that it must mention every character of Unknown
+	Cluster bool     // the name argument is not asserted for clusters, except that it must mention every character of Unknown
 	Unknown []string // cluster: its characters, from the first unknown one on, that name no option in scope
 }
 
